@@ -233,7 +233,11 @@ struct InclEngine : Engine {
 					else if (k == 1) t += "{{missing.txt}}";
 					else if (k == 2 && use_odd) t += "{{" + std::string(990 + w.below(20), 'x') + "}}";
 					else if (k == 3 && use_odd) t += "{{unterminated";
-					else if (k == 4 && use_odd) t += "{{}}";
+					else if (k == 4 && use_odd) {
+						// the empty marker; names that merely START like the TOC placeholder (only the literal {{TOC}} is one); a name with blanks around it
+						unsigned ok = (unsigned)w.below(5);
+						t += ok == 0 ? "{{}}" : ok == 1 ? "{{TOC:2-3}}" : ok == 2 ? "{{TOC.txt}}" : ok == 3 ? "{{TOCnotes.txt}}" : "{{ " + rel(basedir, target) + " }}";
+					}
 					else if (k == 5 && use_odd && !dag) t += "{{ {{" + rel(basedir, target) + "}} }}";
 					else if (k == 6 && !dag) t += "{{" + rel(basedir, paths[(size_t)i]) + "}}";            // self
 					else {
@@ -279,6 +283,7 @@ struct InclEngine : Engine {
 			files[paths[(size_t)i]] = f;
 			if (t.size() > maxfile) maxfile = t.size();
 		}
+		if (use_odd && w.chance(2, 3)) { Json f = Json::object(), v = Json::array(); v.push(std::string("my own contents page\n")); f["versions"] = v; f["faults"] = Json::array(); files["/sim/w/TOC.txt"] = f; }
 		// siblings for wildcard resolution in other formats
 		if (use_wild) for (int i = 0; i < nfiles; i++) if (names[(size_t)i].find(".*") != std::string::npos) {
 			for (const char * e : {".html", ".tex", ".fodt", ".txt"}) {
